@@ -35,6 +35,9 @@ class Conciliation(Observer):
         if ptype == PublicationHeaders.TICK:
             self.k[key] = body['sequence_counter']
             return
+        if ptype == PublicationHeaders.PROCESS and body.get('forced') and key in self.episodes:
+            # a stop of the episode given up on time-out ("once those stops are reported" does not hold for it)
+            self.episodes[key].setdefault('given_up', set()).add('%s:%s' % (body['group'], body['name']))
         if ptype != PublicationHeaders.STATE:
             return
         state = body['fsm_statename']
@@ -228,7 +231,9 @@ class Conciliation(Observer):
                 # ... and at least one: "RESTART then starts one copy again". The start follows the last stop
                 # acknowledgement and precedes the return to OPERATION (the Starter is then busy). Nothing to start it on
                 # is reported as a forced FATAL
-                if any(s_ns == ns for s_ns, _i in stops) and not any(s_ns == ns for s_ns, _i, _t in ep['starts']):
+                if ns in ep.get('given_up', ()):
+                    self._probe('restart_after_given_up_stop_skipped')
+                elif any(s_ns == ns for s_ns, _i in stops) and not any(s_ns == ns for s_ns, _i, _t in ep['starts']):
                     self._probe('restart_without_start_seen')
                     app_o = inst.supvisors.context.applications.get(ns.split(':')[0])
                     proc_o = app_o.processes.get(ns.split(':')[1]) if app_o else None
